@@ -801,6 +801,8 @@ func c10Clamp(c *Ctx, a *sketchAnchors) {
 					guard = func(t *Term) bool {
 						return t.isBin("<") && isStat(t.Args[0], maxF) && t.Args[1].unver().Key() == elem.Key()
 					}
+				case e.Val.unver().Key() == elem.Key():
+					continue // the element is written back as it is (a clamp helper's "neither" answer)
 				default:
 					bad = "unexpected element store " + e.String()
 					continue
